@@ -345,6 +345,7 @@ type NetOpts struct {
 	ShortWriteProgress bool
 	WriteBreak         int  // permille: accept a prefix, then fail hard
 	SlowClose          bool // Close is a scheduling point of its own, released late
+	DialHangForever    bool // a dial may hang also without a deadline on its context (only where somebody is going to cancel it: Close, Disconnect)
 	DialFail           int  // permille
 	DialHang           int  // permille (needs a deadline on the context)
 	OneByteRead        int  // permille: among short reads, deliver a single byte
@@ -554,7 +555,7 @@ func (s *Sim) dialAction(p *park) Action {
 			s.unpark(p)
 			return
 		}
-		if _, has := op.ctx.Deadline(); has && w.FaultOK() && w.Tape.Flip("dhang", o.DialHang) {
+		if _, has := op.ctx.Deadline(); (has || o.DialHangForever) && w.FaultOK() && w.Tape.Flip("dhang", o.DialHang) {
 			w.Fault("dial_hang")
 			op.hang = true
 			w.Ev("dial", 0, "%s dial hangs until context ends", p.g)
